@@ -53,6 +53,7 @@ func variablesForArgMode(atom ast.Atom, mode ast.Mode, mask ast.ArgMode) []ast.V
 // - is unified (via an equality) with a constant or bound variable.
 // Also checks that every function application expression has the right number of arguments.
 func (a *Analyzer) CheckRule(clause ast.Clause) error {
+	originalPremises := clause.Premises
 	clause = clause.ReplaceWildcards()
 	var (
 		boundVars = make(map[ast.Variable]bool)
@@ -89,7 +90,24 @@ func (a *Analyzer) CheckRule(clause ast.Clause) error {
 	}
 
 	if clause.Premises != nil {
-		for _, premise := range clause.Premises {
+		for i, premise := range clause.Premises {
+			if neg, ok := originalPremises[i].(ast.NegAtom); ok {
+				// Evaluation proceeds left-to-right (after rewriting): the named
+				// variables of a negated atom need a value at this point. Wildcards
+				// mean "no such tuple" and need none.
+				negVars := make(map[ast.Variable]bool)
+				ast.AddVars(neg, negVars)
+				for v := range negVars {
+					if v.Symbol == "_" {
+						continue
+					}
+					seenVars[v] = true
+					if !hasValue(boundVars, uf, v) {
+						return fmt.Errorf("variable %v in negated atom %v will not have a value yet; it needs to be bound by a subgoal to the left", v, neg)
+					}
+				}
+				continue
+			}
 			ast.AddVars(premise, seenVars)
 			switch p := premise.(type) {
 			case ast.Atom:
@@ -325,6 +343,20 @@ func (a *Analyzer) CheckRule(clause ast.Clause) error {
 	}
 
 	return nil
+}
+
+// hasValue returns true if v is bound or unified with a constant or a bound variable.
+func hasValue(boundVars map[ast.Variable]bool, uf unionfind.UnionFind, v ast.Variable) bool {
+	if boundVars[v] {
+		return true
+	}
+	switch x := uf.Get(v).(type) {
+	case ast.Constant:
+		return true
+	case ast.Variable:
+		return boundVars[x]
+	}
+	return false
 }
 
 func hasMultipleTransforms(clause ast.Clause) bool {
